@@ -127,6 +127,15 @@ func (s *ScriptSession) Status(mailbox string, options *imap.StatusOptions) (*im
 	return &imap.StatusData{Mailbox: mailbox, NumMessages: &z, NumUnseen: &z, NumDeleted: &z, Size: &z64}, nil
 }
 func (s *ScriptSession) Append(mailbox string, r imap.LiteralReader, options *imap.AppendOptions) (*imap.AppendData, error) {
+	switch mailbox {
+	case "mfail":
+		// refused before anything of the message has been read
+		s.call("Append", []interface{}{mailbox, "", r.Size(), options})
+		return nil, errScripted
+	case "mpanic":
+		s.call("Append", []interface{}{mailbox, "", r.Size(), options})
+		panic("scripted panic in Append before the literal has been read")
+	}
 	b, _ := io.ReadAll(r)
 	if err := s.call("Append", []interface{}{mailbox, string(b), r.Size(), options}); err != nil {
 		return nil, err
